@@ -128,7 +128,10 @@ def cmd_table():
                 how = '**missed**'
             else:
                 how = f'rc={det["check_rc"]}'
-        rows.append(f"| {i} | {m['property']} | {m.get('summary', '').replace('|', '/')} | {m.get('needs', '').replace('|', '/')} | {how} |")
+        def cut(t, n=170):
+            t = ' '.join(str(t).replace('|', '/').split())
+            return t if len(t) <= n else t[:n - 1] + '…'
+        rows.append(f"| {i} | {m['property']} | {cut(m.get('summary', ''))} | {cut(m.get('needs', ''), 140)} | {how} |")
     print('| id | property | change | needs | caught by `./check` (quick) |\n|---|---|---|---|---|')
     print('\n'.join(rows))
 
